@@ -113,6 +113,16 @@ int cmdCases(int argc, char** argv) {
 							nif.SetShapePartitions(shape, pinfo, tp);
 							nif.UpdateSkinPartitions(shape);
 						}
+						// locked normals: every odd vertex and the last one
+						{
+							auto ln = std::make_unique<NiIntegersExtraData>();
+							ln->name.get() = "LOCKEDNORM";
+							std::vector<uint32_t> lk;
+							for (uint32_t v = 1; v < nv; v += 2) lk.push_back(v);
+							if (nv > 0 && (lk.empty() || lk.back() != nv - 1)) lk.push_back(uint32_t(nv - 1));
+							for (auto v : lk) ln->integersData.push_back(v);
+							nif.AssignExtraData(shape, std::move(ln));
+						}
 						JObj cj;
 						cj.add("case", (long long) k).add("ver", vers[vi]).add("skinned", skinned != 0).add("twoParts", skinned == 2);
 						// normal form first: attribute values become the ones the storage format holds (halves, bytes)
